@@ -27,6 +27,10 @@ pub enum Tamper {
     UDblAfter,
     UOtherMsgAfter,
     UIdentityAfter,
+    /// commitment = identity and v = -(sig * y): the pairing equation holds, only the identity guard can reject
+    UIdentityForged,
+    /// commitment u = -(H(m) * y): the blinded commitment u + H(m) y becomes the identity (v stays the honest one)
+    UCancelsChallenge,
     VNeg,
     VAddG,
     VIdentity,
@@ -146,7 +150,7 @@ impl<C: Suite> Model for M10<C> {
         if st.ch == Ch::FromHash {
             a.extend([
                 UAddGBefore, UDblBefore, UOtherMsgBefore, UIdentityBefore, XPlus1Before, SigOtherKeyAtFinalize, UAddGAfter, UDblAfter, UOtherMsgAfter,
-                UIdentityAfter, VNeg, VAddG, VIdentity, MsgFlip, MsgOther, PkOther, PkIdentity,
+                UIdentityAfter, UIdentityForged, UCancelsChallenge, VNeg, VAddG, VIdentity, MsgFlip, MsgOther, PkOther, PkIdentity,
             ]);
             for c in [Codec::Bytes, Codec::Bare, Codec::Json] {
                 a.push(TCommitment(c));
@@ -246,6 +250,15 @@ impl<C: Suite> Model for M10<C> {
                 Some(UDblAfter) => p = mk_pok::<C>(st.s, u + u, v),
                 Some(UOtherMsgAfter) => p = mk_pok::<C>(st.s, cparts(&ProofCommitment::<C>::generate(&pother, sig).map_err(|e| e.to_string())?.0), v),
                 Some(UIdentityAfter) => p = mk_pok::<C>(st.s, SgP::<C>::identity(), v),
+                Some(UCancelsChallenge) => {
+                    let dst: &[u8] = match st.s {
+                        Scheme::Basic => <C as BlsSignatureBasic>::DST,
+                        Scheme::Aug => <C as BlsSignatureMessageAugmentation>::DST,
+                        Scheme::Pop => <C as BlsSignaturePop>::SIG_DST,
+                    };
+                    p = mk_pok::<C>(st.s, -(<C as HashToPoint>::hash_to_point(&pmsg, dst) * y.0), v)
+                }
+                Some(UIdentityForged) => p = mk_pok::<C>(st.s, SgP::<C>::identity(), -(*sig.as_raw_value() * y.0)),
                 Some(VNeg) => p = mk_pok::<C>(st.s, u, -v),
                 Some(VAddG) => p = mk_pok::<C>(st.s, u, v + gen),
                 Some(VIdentity) => p = mk_pok::<C>(st.s, u, SgP::<C>::identity()),
